@@ -10,7 +10,8 @@ pub(crate) const DEFAULT_ID: &'static str = "1234567812345678";
 
 
 pub fn compute_za(id: &str, pk: &Point) -> Sm2Result<[u8; 32]> {
-    if !pk.is_valid() {
+    // the point at infinity is not a public key (Point::is_valid accepts it as a group element)
+    if pk.is_zero() || !pk.is_valid() {
         return Err(Sm2Error::InvalidPublic);
     }
     let mut prepend: Vec<u8> = Vec::new();
